@@ -13,6 +13,7 @@ Transformations
                  irrelevant)
   flip-if        ``if not c: A else: B`` -> ``if c: B else: A`` and ``if a != b`` / ``is not`` likewise (non-elif only)
   return-temp    ``return E`` -> ``_ret = E; return _ret``
+  else-after-exit  ``if c: ...; return X`` + rest -> the same ``if`` with the rest as its ``else`` branch
   keyword-last   ``f(a, b)`` -> ``f(a, y=b)`` when every definition named ``f`` in the repository calls its parameter at that
                  position ``y`` (undecorated, no ``*args``)
   insert-noop    a call without effect (``(lambda: None)()``, standing for a log line) at the start of every function
@@ -325,7 +326,33 @@ def _keyword_last(tree, repo=None):
     return T().visit(tree)
 
 
+class _ElseAfterExit(ast.NodeTransformer):
+    """`if c: ...; return X` followed by REST  ->  `if c: ...; return X` `else: REST` (the early-exit style rewritten as
+    an if/else)."""
+
+    @staticmethod
+    def _exits(body):
+        return bool(body) and isinstance(body[-1], (ast.Return, ast.Raise, ast.Continue, ast.Break))
+
+    def _rewrite(self, body):
+        for i, st in enumerate(body):
+            if isinstance(st, ast.If) and not st.orelse and self._exits(st.body) and i + 1 < len(body):
+                rest = self._rewrite(body[i + 1 :])
+                st.orelse = rest
+                return body[: i + 1]
+        return body
+
+    def generic_visit(self, node):
+        super().generic_visit(node)
+        for f in ("body", "orelse", "finalbody"):
+            seq = getattr(node, f, None)
+            if isinstance(seq, list) and seq and isinstance(seq[0], ast.stmt):
+                setattr(node, f, self._rewrite(seq))
+        return node
+
+
 TRANSFORMS = {
+    "else-after-exit": lambda tree: _ElseAfterExit().visit(tree),
     "keyword-last": _keyword_last,
     "insert-noop": lambda tree: _InsertNoop().visit(tree),
     "return-temp": _return_temp,
